@@ -1,4 +1,5 @@
 //! Kani harnesses (real code, path dependencies on /repo). `//@` lines are read by bin/vcheck.
+#![recursion_limit = "512"]
 #![allow(unused, clippy::all, static_mut_refs)]
 #![cfg_attr(kani, feature(core_io_borrowed_buf, read_buf))]
 extern crate alloc;
